@@ -37,6 +37,14 @@ struct GenOpts {
   bool heavy = true;     // allow the rare scenarios with ~10^4 steps (deep unroll, noisy neighbour); off under libFuzzer
 };
 
+// Rare scenario classes are drawn with small probabilities by the random generators; the scenario phase of every check
+// also runs a fixed number of cases of each class (special::scenario_cases) by forcing the draw through this variable.
+enum Scenario { SC_NONE = 0, SC_DEEP0, SC_DEEP1, SC_DEEP2, SC_NOISY, SC_CROWD, SC_NESTED, SC_RETRY, SC_TWIN, SC_WIDEROW, SC_WIDEROW_BIG,
+                SC_LN256, SC_LN65536, SC_C05BIG, SC_C05VERB, SC_ENCPAIR, SC_ENCCROWD, SC_MULTI, SC_SIBLING, SC_COUNT };
+static const char* const scenario_names[] = {"none", "deep_unroll_4096", "deep_unroll_8192", "deep_unroll_16384", "noisy_neighbour", "crowd", "nested_decode", "retry_after_failure",
+  "progress_then_twin", "wide_rows_256", "wide_rows_1024", "lastnull_extras_256", "lastnull_extras_65536", "big_block", "verbose_neighbour", "encoder_pair", "encoder_crowd", "multi_session", "sibling_sessions"};
+static int g_force = SC_NONE;
+
 inline void seeded_shuffle(std::vector<uint32_t>& v, uint64_t seed) {
   uint64_t x = seed;
   for (size_t i = v.size(); i > 1; i--) { size_t j = (size_t)(splitmix(x) % i); std::swap(v[i - 1], v[j]); }
@@ -64,6 +72,8 @@ inline Config gen_config(Chooser& ch, const GenOpts& o) {
   if (o.codecs & GC_RSM8) cs.push_back(2);
   if (o.codecs & GC_LDPC) cs.push_back(3);
   int which = cs[ch.next() % cs.size()];
+  bool force_wide = (g_force == SC_WIDEROW || g_force == SC_WIDEROW_BIG) && (o.codecs & GC_LDPC);
+  if (force_wide) which = 3;
   uint32_t scale = ch.next() % 8;  // 0,1: tiny  2-5: small/medium  6: large  7: at the limit
   if (which <= 2) {
     c.codec = which == 0 ? CODEC_RS8 : CODEC_RSM;
@@ -98,7 +108,11 @@ inline Config gen_config(Chooser& ch, const GenOpts& o) {
     c.r = rr;
     // now and then a very high rate code with k >= 256: equations with several hundred symbols (counters
     // of row weights and of unknown symbols must hold more than 8 bits)
-    if (ch.next() % 20 == 19) { c.k = ch.range(256, 700); if (c.N1 > 12) c.N1 = ch.range(3, 10); c.r = c.N1 + ch.range(0, 6); }
+    if (ch.next() % 20 == 19 || force_wide) {
+      c.k = ch.range(256, 700); if (c.N1 > 12) c.N1 = ch.range(3, 10); c.r = c.N1 + ch.range(0, 6);
+      // one in four of these: equations with more than 1024 / 2048 / 4096 symbols (batch sizes and 10..12-bit counters)
+      if (o.heavy && (ch.next() % 4 == 3 || g_force == SC_WIDEROW_BIG) && g_force != SC_WIDEROW) { uint32_t w = ch.pick<uint32_t>({1024, 1024, 2048, 4096}); uint32_t per = w + ch.range(0, 80); c.k = std::min<uint32_t>(49000, (per * c.r + c.N1 - 1) / c.N1); }
+    }
     uint32_t sc = ch.next() % 8;
     c.seed = sc == 0 ? 1 : sc == 1 ? 0x7FFFFFFEu : sc == 2 ? ch.pick<uint32_t>({2, 16807, 0x7FFFFFFDu, 127773, 2836}) : (ch.next() % 0x7FFFFFFEu) + 1;
   }
@@ -200,11 +214,14 @@ inline Script gen_decoder_script_cfg(Chooser& ch, const GenOpts& o, const Config
     uint64_t ds = ch.seed64();
     for (size_t i = 0; i < rec.size(); i++) {
       Step st; st.op = OP_NEW; st.esi = rec[i]; s.steps.push_back(st);
+      // blocks of thousands of symbols: the completion flag after every call, the whole table only now and then (a table query costs k comparisons)
+      if (qrate && s.cfg.k > 1500) { if (qrate == 1 || splitmix(qs) % qrate == 0) push_query(s, (splitmix(qs) % 64 == 0) ? 3 : 1); }
+      else
       if (qrate && (qrate == 1 || splitmix(qs) % qrate == 0)) push_query(s, 1 + (uint32_t)(splitmix(qs) % 3));
       if (duprate && splitmix(ds) % duprate == 0) {
         Step d; d.op = OP_NEW; d.esi = rec[(size_t)(splitmix(ds) % (i + 1))]; d.flag = (uint32_t)(splitmix(ds) & 1);
         s.steps.push_back(d);
-        if (qrate == 1) push_query(s);
+        if (qrate == 1) push_query(s, s.cfg.k > 1500 ? 1 : 3);
       }
     }
   }
@@ -269,14 +286,84 @@ inline History gen_single_decoder(Chooser& ch, const GenOpts& o) { History h; h.
 inline History gen_single_encoder(Chooser& ch, const GenOpts& o) { History h; h.scripts.push_back(gen_encoder_script(ch, o)); return h; }
 
 // C12: 2-4 scripts with related parameters and an interleaving
+// Nested decoding: two decoder sessions with source callbacks advance in lockstep up to their decoding step; the first
+// one's decoding step then runs, and from inside its callbacks the second session takes its own decoding step.
+inline History gen_nested(Chooser& ch, const GenOpts& o) {
+  History h; GenOpts oo = o; oo.big_L = false;
+  Config c1 = gen_config(ch, oo);
+  Config c2 = c1;
+  uint32_t rel = ch.next() % 4;
+  if (rel == 0) c2.pseed ^= 0x77; else if (rel == 1) c2 = gen_config(ch, oo); else if (rel == 2) { c2.pseed ^= 0x33; c2.L = c1.L + 1; }
+  for (int i = 0; i < 2; i++) {
+    const Config& c = i ? c2 : c1;
+    Script s; s.cfg = c; s.role = ROLE_DEC; s.cbmode = 1; s.align = ch.next();
+    { Step st; st.op = OP_SETCB; st.flag = 1; s.steps.push_back(st); }
+    { Step sp; sp.op = OP_SETPARAMS; s.steps.push_back(sp); }
+    // everything arrives but 1..3 source symbols (and, for LDPC, a few repairs); decoding happens in one step
+    uint32_t n = c.k + c.r, lose = std::min<uint32_t>(c.k, std::min<uint32_t>(c.r, ch.range(1, 3)));
+    std::vector<uint32_t> src(c.k); std::iota(src.begin(), src.end(), 0); seeded_shuffle(src, ch.seed64());
+    std::vector<char> lost(n, 0); for (uint32_t j = 0; j < lose; j++) lost[src[j]] = 1;
+    bool avail = ch.coin(1, 2);
+    std::vector<uint32_t> rec; for (uint32_t e = 0; e < n; e++) if (!lost[e]) rec.push_back(e);
+    if (c.codec != CODEC_LDPC && ch.coin(1, 2)) { rec.clear(); for (uint32_t e = 0; e < c.k; e++) if (!lost[e]) rec.push_back(e); for (uint32_t j = 0; j < lose; j++) rec.push_back(c.k + j); }   // exactly k symbols
+    if (avail) { Step a; a.op = OP_AVAIL; a.set = rec; s.steps.push_back(a); }
+    else { std::stable_sort(rec.begin(), rec.end(), [&](uint32_t a, uint32_t b) { return (a < c.k) > (b < c.k); }); for (uint32_t e : rec) { Step st; st.op = OP_NEW; st.esi = e; s.steps.push_back(st); } }
+    { Step f; f.op = OP_FINISH; s.steps.push_back(f); }
+    push_query(s);
+    h.scripts.push_back(s);
+  }
+  // lockstep over create / setcb / setparams; then session 0 runs to its end (its callbacks make session 1 step), then session 1
+  for (int t = 0; t < 3; t++) { h.inter.push_back(0); h.inter.push_back(1); }
+  for (size_t t = 0; t < h.scripts[0].steps.size(); t++) h.inter.push_back(0);
+  h.reenter = ch.pick<uint32_t>({1, 2, 3, 8, 64});
+  return h;
+}
+
+// A crowd: M sessions of one small code alive at the same time (M around 2^8: counters of concurrent users), each having
+// done its first piece of work; then a few sessions of other codes live their whole life; then the crowd goes on.
+inline History gen_crowd(Chooser& ch, const GenOpts& o, int force_enc = 0) {
+  History h; GenOpts oo = o; oo.big_L = false; oo.max_k_ldpc = std::min<uint32_t>(oo.max_k_ldpc, 12); oo.max_n_ldpc = std::min<uint32_t>(oo.max_n_ldpc, 24); oo.max_n_rs = std::min<uint32_t>(oo.max_n_rs, 16); oo.heavy = false;
+  Config c = gen_config(ch, oo); c.L = 1 + c.L % 16;
+  if (c.k + c.r > 24) { c.k = 1 + c.k % 8; c.r = (c.codec == CODEC_LDPC ? std::max<uint32_t>(c.N1 = 3, 3) : 1) + c.r % 6; }
+  bool enc = ch.coin(2, 3) || force_enc;
+  uint32_t M = ch.pick<uint32_t>({255, 256, 256, 257, 300, 512, 64});
+  Script base = enc ? gen_encoder_script_cfg(ch, oo, c) : gen_decoder_script_cfg(ch, oo, c);
+  for (uint32_t i = 0; i < M; i++) { Script s = base; s.cfg.pseed = c.pseed + i % 3; h.scripts.push_back(s); }
+  uint32_t others = ch.range(3, 6);
+  // the others: the same codec with other dimensions (what sessions share is shared within a codec), now and then any codec
+  bool same_family = ch.coin(3, 4);
+  for (uint32_t i = 0; i < others; i++) {
+    Config c2;
+    if (same_family) {
+      c2 = c; c2.pseed = c.pseed + 100 + i;
+      uint32_t lim = c.codec == CODEC_RS8 ? 255 : (c.codec == CODEC_RSM && c.m == 4) ? 15 : (c.codec == CODEC_RSM ? 255 : 400);
+      c2.k = 1 + (c.k + i) % 9; c2.r = (c.codec == CODEC_LDPC ? c2.N1 : 1) + (c.r + 2 * i + 1) % 5;
+      if (c2.k + c2.r > lim) { c2.k = 1 + c2.k % 4; c2.r = (c.codec == CODEC_LDPC ? c2.N1 : 1) + i % 3; }
+      if (c2.k == c.k && c2.r == c.r) c2.k += 1;
+      if (c2.k + c2.r > lim) c2 = c;
+    } else { c2 = gen_config(ch, oo); c2.L = 1 + c2.L % 16; if (c2.k + c2.r > 40) { c2.k = 1 + c2.k % 8; c2.r = 3 + c2.r % 6; if (c2.codec == CODEC_LDPC) c2.N1 = 3; } }
+    h.scripts.push_back((ch.coin(1, 2) || force_enc) ? gen_encoder_script_cfg(ch, oo, c2) : gen_decoder_script_cfg(ch, oo, c2));
+  }
+  // crowd: create, and its first steps up to the first unit of work (first build / first submission)
+  size_t first = 0; while (first < base.steps.size() && base.steps[first].op != OP_BUILD && base.steps[first].op != OP_NEW && base.steps[first].op != OP_AVAIL) first++;
+  size_t warm = std::min(base.steps.size(), first + 1);
+  for (uint32_t i = 0; i < M; i++) for (size_t t = 0; t < 1 + warm; t++) h.inter.push_back(i);
+  // M - x of them may leave early
+  uint32_t leave = ch.pick<uint32_t>({0, 0, 1, 44});
+  for (uint32_t i = 0; i < leave && i < M; i++) for (size_t t = 0; t < base.steps.size() + 1; t++) h.inter.push_back(M - 1 - i);
+  for (uint32_t j = 0; j < others; j++) for (size_t t = 0; t < h.scripts[M + j].steps.size() + 2; t++) h.inter.push_back(M + j);
+  return h;   // the rest round-robin
+}
+
 inline History gen_multi(Chooser& ch, const GenOpts& o) {
   History h;
+  { uint32_t sc = ch.next() % 40; if (g_force == SC_NESTED || (sc >= 36 && g_force == SC_NONE)) return gen_nested(ch, o); if (g_force == SC_CROWD || (sc == 35 && o.heavy && g_force == SC_NONE)) return gen_crowd(ch, o); }
   uint32_t ns = ch.range(2, 4);
   GenOpts oo = o; oo.big_L = false;
   for (uint32_t i = 0; i < ns; i++) {
     bool enc = ch.coin(1, 3);
     Script s = enc ? gen_encoder_script(ch, oo) : gen_decoder_script(ch, oo);
-    if (i > 0 && ch.coin(1, 3)) {
+    if (i > 0 && (ch.coin(1, 3) || g_force == SC_SIBLING)) {
       // a sibling of the previous script: related parameters (caches and shared scratch state are keyed on some of them)
       Script t = h.scripts[i - 1];
       Config c2 = t.cfg;
@@ -296,6 +383,13 @@ inline History gen_multi(Chooser& ch, const GenOpts& o) {
         for (uint32_t k2 = 1; k2 + c2.r <= lim && k2 <= prod; k2++) if (k2 != c2.k && prod % k2 == 0 && prod / k2 <= 4096 && (k2 * 7 + ch.next()) % 3 == 0) { c2.k = k2; c2.L = prod / k2; regen = true; break; }
       }
       else if (what == 6 && c2.payload != PAY_IDENTITY) { c2.L = c2.L + 1; }                                                                // same shape, another symbol length
+      else if (what == 7 && !was_enc) {                                                                                                     // same code, same numbers of sources and repairs received, other symbols
+        uint64_t ps = ch.seed64();
+        std::vector<uint32_t> so(c2.k), ro(c2.r); std::iota(so.begin(), so.end(), 0); std::iota(ro.begin(), ro.end(), c2.k);
+        seeded_shuffle(so, ps); seeded_shuffle(ro, ps ^ 0x99);
+        std::vector<uint32_t> map(c2.k + c2.r); for (uint32_t e = 0; e < c2.k; e++) map[e] = so[e]; for (uint32_t e = 0; e < c2.r; e++) map[c2.k + e] = ro[e];
+        for (auto& st : t.steps) { if (st.op == OP_NEW && st.esi < map.size()) st.esi = map[st.esi]; if (st.op == OP_AVAIL) { for (auto& e : st.set) if (e < map.size()) e = map[e]; std::sort(st.set.begin(), st.set.end()); } }
+      }
       if (regen) { Script t2 = was_enc ? gen_encoder_script_cfg(ch, oo, c2) : gen_decoder_script_cfg(ch, oo, c2); s = t2; }
       else { t.cfg = c2; s = t; }
     }
@@ -304,7 +398,7 @@ inline History gen_multi(Chooser& ch, const GenOpts& o) {
   }
   // now and then a long-lived noisy neighbour: thousands of duplicate submissions on one session before
   // (and while) the others run (process-wide counters, caches and free lists get exercised)
-  if (o.heavy && (o.codecs & GC_LDPC) && ch.next() % 32 == 31) {
+  if ((o.codecs & GC_LDPC) && ((o.heavy && ch.next() % 32 == 31 && g_force == SC_NONE) || g_force == SC_NOISY)) {
     Script a; a.cfg.codec = CODEC_LDPC; a.cfg.k = ch.range(2, 12); a.cfg.N1 = 3; a.cfg.r = ch.range(3, 12); a.cfg.seed = 1 + ch.next() % 1000; a.cfg.L = 4; a.cfg.payload = PAY_RANDOM; a.role = ROLE_DEC;
     Step sp; sp.op = OP_SETPARAMS; a.steps.push_back(sp);
     uint32_t dups = ch.pick<uint32_t>({1500, 5000, 9000});
@@ -318,8 +412,11 @@ inline History gen_multi(Chooser& ch, const GenOpts& o) {
   if (ch.next() % 4 == 3) h.reenter = ch.range(1, 6);   // nested calls: another session acts from inside a callback
   size_t total = 0;
   for (auto& s : h.scripts) total += s.steps.size() + 2;
-  uint32_t mode = ch.next() % 5;
+  uint32_t mode = ch.next() % 6;
   uint64_t is = ch.seed64();
+  if (mode == 5) {  // one after the other: each session lives its whole life before the next is created (state surviving a release)
+    for (uint32_t j = 0; j + 1 < ns; j++) for (size_t i = 0; i < h.scripts[j].steps.size() + 2; i++) h.inter.push_back(j);
+  } else
   if (mode == 4) {  // session 0 makes progress and stays open, the others live their whole life, then session 0 goes on
     size_t s0 = h.scripts[0].steps.size(); size_t part = 1 + (s0 > 1 ? is % s0 : 0);
     for (size_t i = 0; i < 1 + part; i++) h.inter.push_back(0);
